@@ -505,7 +505,7 @@ class TT():
                         pad2 = (0 if i == len(
                             self.__N)-1 else self.__R[i+1], 0, 0, 0, 0 if i == 0 else self.R[i], 0)
                         cores.append(tnf.pad(self.cores[i], pad1)+tnf.pad(
-                            tn.ones((1, self.__N[i], 1), device=self.cores[i].device), pad2))
+                            tn.ones((1, self.__N[i], 1), dtype=self.cores[i].dtype, device=self.cores[i].device), pad2))
 
                     for k, i in zip(range(len(other.cores)), range(len(self.cores)-len(other.cores), len(self.cores))):
                         if other.N[k] == self.__N[i]:
@@ -582,14 +582,14 @@ class TT():
                     pad2 = (0 if i == len(
                         self.__N)-1 else self.__R[i+1], 0, 0, 0, 0, 0, 0 if i == 0 else self.R[i], 0)
                     othr = tn.ones(
-                        [1, 1, 1, 1], dtype=self.cores[i].dtype) * (-other if i == 0 else 1)
+                        [1, 1, 1, 1], dtype=self.cores[i].dtype) * (other if i == 0 else 1) * (-1 if i == 0 else 1)
                 else:
                     pad1 = (0, 0 if i == len(self.__N)-1 else 1,
                             0, 0, 0, 0 if i == 0 else 1)
                     pad2 = (0 if i == len(
                         self.__N)-1 else self.__R[i+1], 0, 0, 0, 0 if i == 0 else self.R[i], 0)
                     othr = tn.ones(
-                        [1, 1, 1], dtype=self.cores[i].dtype) * (-other if i == 0 else 1)
+                        [1, 1, 1], dtype=self.cores[i].dtype) * (other if i == 0 else 1) * (-1 if i == 0 else 1)
                 cores.append(tnf.pad(self.cores[i], pad1)+tnf.pad(othr, pad2))
             result = TT(cores)
 
@@ -635,7 +635,7 @@ class TT():
                         pad2 = (0 if i == len(
                             self.__N)-1 else self.__R[i+1], 0, 0, 0, 0 if i == 0 else self.R[i], 0)
                         cores.append(tnf.pad(self.cores[i], pad1)+tnf.pad((-1 if i == 0 else 1)*tn.ones(
-                            (1, self.__N[i], 1), device=self.cores[i].device), pad2))
+                            (1, self.__N[i], 1), dtype=self.cores[i].dtype, device=self.cores[i].device), pad2))
 
                     for k, i in zip(range(len(other.cores)), range(len(self.cores)-len(other.cores), len(self.cores))):
                         if other.N[k] == self.__N[i]:
